@@ -14,7 +14,7 @@ run_tests() { (cd $WT && PYTHONPATH=$WT/src /venv/bin/python -m pytest -q -p no:
 run_demo() { (cd $WT && PYTHONPATH=$WT/src timeout 300 /venv/bin/python $SRC/demo.py >/tmp/seeddemo_$P$M.log 2>&1; echo $?); }
 echo "== $P $M"
 echo "clean: tests: $(run_tests)  demo exit: $(run_demo)"
-git -C $WT apply $SRC/patch.diff || { echo "patch does not apply"; exit 2; }
+git -C $WT apply $SRC/patch.diff 2>/dev/null || git -C $WT apply --3way $SRC/patch.diff 2>/dev/null || { echo "patch does not apply"; git -C /repo worktree remove --force $WT; exit 2; }
 echo "patched: tests: $(run_tests)  demo exit: $(run_demo)   [$(tail -1 /tmp/seeddemo_$P$M.log | cut -c1-160)]"
 for C in $CHECKS; do
   OUT=$(cd ${VERIF_DIR:-/verif} && HALMOS_REPO=$WT timeout 2400 bin/check $C quick 2>&1 | tail -4)
